@@ -2643,6 +2643,10 @@ impl Connection {
                 self.events.push_back(Event::Connected);
                 self.state = State::Established;
                 trace!("established");
+                // The PTO computation skips the application data space while the handshake is in
+                // progress, so the timer must be recomputed now that it is complete: 1-RTT packets
+                // sent during the handshake may be in flight with nothing left to re-arm it.
+                self.set_loss_detection_timer(now);
                 Ok(())
             }
             Header::Initial(InitialHeader {
